@@ -10,11 +10,12 @@
      free_parameter.py  FreeParameterAnalysis.modify_model
      model_analysis.py  ModelAnalysis, CombinedModelAnalysis.modify_model
 
-   The snapshot 75ee8d3 had four defects touching the property; all four are repaired in /repo
-   (1e4dc27, c4fcf7f, ab776e6, 1799c30).  A fifth one (free parameters drop per-analysis models)
-   has a proposed repair.  The model is parametrised by a record saying which repairs the
-   modelled code contains: `cfg_now` is /repo as it stands, `cfg_snapshot` the historical
-   snapshot (kept so that a regression has a name), `cfg_fixed` every repair applied. *)
+   The snapshot 75ee8d3 had six defects touching the property; all six are repaired in /repo
+   (1e4dc27, c4fcf7f, ab776e6, 1799c30, 1298d8e, 1b618eb).  The model is parametrised by a record
+   saying which repairs the modelled code contains: `cfg_now` is /repo as it stands (every repair),
+   `cfg_snapshot` the historical snapshot and `cfg_round1` the tree after the first four repairs
+   (kept so that a regression has a name and a proved description).  One defect without a repair
+   flag remains: (a + b) + free-parameter sum is accepted silently (known finding). *)
 From Coq Require Import ZArith List Bool Arith Lia.
 Import ListNotations.
 
@@ -23,12 +24,13 @@ Record cfg := mkCfg {
   fix_new   : bool;     (* __new__ sees a ModelAnalysis through IndexedAnalysis             (c4fcf7f) *)
   fix_drain : bool;     (* AnalysisPool.results collects every result before raising        (ab776e6) *)
   fix_map   : bool;     (* AnalysisPool.map gives analysis i the folder analysis_i          (1799c30) *)
-  fix_free_own : bool;  (* FreeParameterAnalysis.modify_model frees inside the analysis' own model (proposed) *)
-  fix_model_hooks : bool (* ModelAnalysis forwards save_attributes / save_results to the wrapped analysis (proposed) *)
+  fix_free_own : bool;  (* FreeParameterAnalysis.modify_model frees inside the analysis' own model (1298d8e) *)
+  fix_model_hooks : bool (* ModelAnalysis forwards save_attributes / save_results to the wrapped analysis (1b618eb) *)
 }.
 Definition cfg_snapshot := mkCfg false false false false false false.
-Definition cfg_now := mkCfg true true true true false false.
-Definition cfg_fixed := mkCfg true true true true true true.
+Definition cfg_round1 := mkCfg true true true true false false.
+Definition cfg_now := mkCfg true true true true true true.
+Definition cfg_fixed := cfg_now.
 
 (* ------------------------------------------------------------------------------------ *)
 (* A. the algebra of `+`                                                                 *)
@@ -326,8 +328,8 @@ Definition base_model (default : list nat) (own : list (list nat)) (it : item) :
 (* CombinedModelAnalysis.modify_model *)
 Definition modify_models (default : list nat) (own : list (list nat)) (its : list item) : list (list pid) :=
   map (fun it => map Orig (base_model default own it)) its.
-(* free parameters over analyses with their own models: the code copies the default model for
-   everybody; the proposed repair frees inside each analysis' own model *)
+(* free parameters over analyses with their own models: the snapshot copied the default model for
+   everybody; since 1298d8e the free priors are freed inside each analysis' own model *)
 Definition modify_free_own (free : list nat) (default : list nat) (own : list (list nat)) (its : list item)
   : list (list pid) :=
   map (fun p => free_model free (fst p) (base_model default own (snd p))) (number_from 0 its).
